@@ -575,6 +575,10 @@ func runBatch(dir string, scs []scenario, checkAnswers bool) outcome {
 		out.wedged, out.log = true, "health after background cycles: "+err.Error()+"\n"+srv.LogTail(20)
 		return out
 	}
+	if err := dispatchProbe(srv, "probe1"); err != nil {
+		out.wedged, out.log = true, "background dispatch after the batch: "+err.Error()+"\n"+srv.LogTail(20)
+		return out
+	}
 	// poison pills survive restarts
 	srv.Kill()
 	if err := srv.Start(); err != nil {
@@ -587,8 +591,28 @@ func runBatch(dir string, scs []scenario, checkAnswers bool) outcome {
 	}
 	if err := srv.Health(3 * time.Second); err != nil {
 		out.wedged, out.log = true, "health after restart: "+err.Error()+"\n"+srv.LogTail(20)
+		return out
+	}
+	if err := dispatchProbe(srv, "probe2"); err != nil {
+		out.wedged, out.log = true, "background dispatch after restart: "+err.Error()+"\n"+srv.LogTail(20)
 	}
 	return out
+}
+
+// dispatchProbe checks that the background workers still do their job: a fresh routed promise must be handed
+// to a poll listener (stalled background coroutines do not show in a read request).
+func dispatchProbe(srv *Server, name string) error {
+	id := fmt.Sprintf("verif-%s-%d", name, time.Now().UnixNano())
+	l := listen(srv.Poll, "verifprobe", id)
+	defer l.close()
+	res := srv.PostJSON("/promises", map[string]any{"id": id, "timeout": time.Now().UnixMilli() + 60000, "tags": map[string]string{"resonate:invoke": "poll://verifprobe/" + id}}, nil)
+	if res.Code != 201 {
+		return fmt.Errorf("probe promise not created: %d %v", res.Code, res.Err)
+	}
+	if _, ok := l.wait(func(b string) bool { return strings.Contains(b, id) }, 5*time.Second); !ok {
+		return fmt.Errorf("a routed promise created after the batch was not dispatched to its poll listener within 5s: task dispatch is stalled")
+	}
+	return nil
 }
 
 func (o outcome) bad() bool { return o.died || o.wedged }
